@@ -185,6 +185,7 @@ pub fn assemble(rng: &mut Rng, which: usize) -> Case {
     "none", "rename_def", "rename_use_fix", "rename_use_transform", "rename_constraint_key", "remove_transform", "cyclic_transform", "cyclic_transform_self", "key_clash", "rename_util",
     "remove_util", "undef_util_in_util", "undef_util_in_constraint", "undef_util_in_expansion", "cycle_utils", "cycle_utils_self", "rename_rewriter", "remove_rewriters", "rewriter_no_fix", "rewriter_undef_var",
     "sigil_mismatch", "toggle_fix_form", "no_kinds", "undef_rewriter_in_rewriter", "rewriter_uses_upper_var",
+    "undef_rewriter_in_indirect_rewriter", "undef_rewriter_in_orphan_rewriter", "indirect_rewriter_ok",
   ];
   let p = names[which % names.len()];
   let mut tag = p.to_string();
@@ -327,6 +328,24 @@ pub fn assemble(rng: &mut Rng, which: usize) -> Case {
     }
     "undef_rewriter_in_rewriter" if with_rw => {
       doc.get_mut("rewriters").unwrap()[0]["transform"] = json!({"Y": {"rewrite": {"source": "$X", "rewriters": ["nested"]}}});
+      expect = "UndefinedRewriter".into();
+      true
+    }
+    // the undefined id sits in a rewriter the rule does not name itself: reached only through
+    // another rewriter (rule -> rw -> rw2 -> ?), or not referenced at all
+    "undef_rewriter_in_indirect_rewriter" | "indirect_rewriter_ok" if with_rw => {
+      let rws = doc.get_mut("rewriters").unwrap().as_array_mut().unwrap();
+      rws[0]["transform"] = json!({"Y": {"rewrite": {"source": "$X", "rewriters": ["rw2"]}}});
+      let inner = if p == "indirect_rewriter_ok" { json!(["rw"]) } else { json!(["nested"]) };
+      rws.push(json!({"id": "rw2", "rule": {"kind": "identifier", "pattern": "$Z"}, "transform": {"W": {"rewrite": {"source": "$Z", "rewriters": inner}}}, "fix": "[$Z]"}));
+      if p != "indirect_rewriter_ok" {
+        expect = "UndefinedRewriter".into();
+      }
+      true
+    }
+    "undef_rewriter_in_orphan_rewriter" if with_rw => {
+      let rws = doc.get_mut("rewriters").unwrap().as_array_mut().unwrap();
+      rws.push(json!({"id": "orphan", "rule": {"kind": "identifier", "pattern": "$Z"}, "transform": {"W": {"rewrite": {"source": "$Z", "rewriters": ["nested"]}}}, "fix": "[$Z]"}));
       expect = "UndefinedRewriter".into();
       true
     }
